@@ -1,8 +1,8 @@
 #!/bin/sh
-# build the model driver from the extracted model; output: /verif/work/ocaml/driver
+# build the model driver from the extracted model; output: work/ocaml/driver next to this directory
 set -e
 HERE=$(cd "$(dirname "$0")" && pwd)
-OUT=/verif/work/ocaml
+OUT="$HERE"/../work/ocaml
 mkdir -p "$OUT"
 cp "$HERE"/../coq/extracted/model.ml "$HERE"/../coq/extracted/model.mli "$HERE"/conv.ml "$HERE"/ops.ml "$HERE"/driver.ml "$OUT"/
 cd "$OUT"
